@@ -110,6 +110,12 @@ impl SystemCommandStorage
     }
 }
 
+#[cfg(feature = "verif")]
+impl SystemCommandStorage
+{
+    pub(crate) fn verif_has_callback(&self) -> bool { self.callback.is_some() }
+}
+
 //-------------------------------------------------------------------------------------------------------------------
 
 /// Spawns a system as a [`SystemCommand`].
